@@ -59,3 +59,29 @@ def run (args : List String) : String :=
   | _ => "bad-op"
 
 end Dblib.Reader
+
+namespace Dblib.Reader
+
+/-- `rdraw <fin> <sched> <hex>`: the reader loop on an arbitrary byte stream (C10, packet level).
+Answer: one item per loop iteration — `P<type>.<status>.<length>.<channel>.<nr>.<window>:<bodyhex>`
+for a packet, `e` for an error — the last item is the error that ends the transport. -/
+def showRaw : List Ev → List String
+  | [] => []
+  | .packet p :: rest =>
+    s!"P{p.hdr.msgType}.{p.hdr.status}.{p.hdr.length}.{p.hdr.channel}.{p.hdr.packetNr}.{p.hdr.window}:{toHex p.data}" :: showRaw rest
+  | .connErr :: rest => "e" :: showRaw rest
+  | .hangs :: _ => ["hangs"]
+  | .stopped :: _ => ["stop"]
+
+def runRaw (args : List String) : String :=
+  match args with
+  | [fin, sched, hex] =>
+    let fin? : Option Fin := if fin == "e" then some .eof else if fin == "r" then some .reset else none
+    match fin?, fromHex hex with
+    | some fin, some stream =>
+      let sched := if sched == "-" then [] else (sched.splitOn ".").filterMap String.toNat?
+      joinSep " " (showRaw (readLoop (stream.length + 2) ⟨stream, sched, fin⟩))
+    | _, _ => "bad-op"
+  | _ => "bad-op"
+
+end Dblib.Reader
